@@ -179,7 +179,7 @@ func c13(c *core.Ctx) {
 		c.Distinct(gen.HashString(fmt.Sprintf("state%+v", s)))
 	}
 	// many transactions expiring in one Collect: exactly those with deadline < t, all of them, in that single call
-	c.Section("mass-expiry", c.N(60, 2000), func(_ int64, r *gen.Rand) {
+	c.Section("mass-expiry", c.N(60, 20000), func(_ int64, r *gen.Rand) {
 		c13Mass(c, r)
 	})
 	// extreme instants: zero time, epoch, year 1, 2262 (UnixNano limit), 9999
@@ -213,7 +213,7 @@ func c13(c *core.Ctx) {
 		}
 	})
 	// long random sequences over many ids, deadlines on both sides of the collect times, re-entrant handlers
-	c.Section("random-long", c.N(2000, 50000), func(_ int64, r *gen.Rand) {
+	c.Section("random-long", c.N(2000, 500000), func(_ int64, r *gen.Rand) {
 		c13Random(c, r)
 	})
 }
